@@ -53,8 +53,8 @@ class time_limit:
         signal.setitimer(signal.ITIMER_REAL, 0)
         signal.signal(signal.SIGALRM, self.old)
         return False
-ENTRIES = ("code_assist", "code_assist_nolater", "get_definition_location", "get_doc", "get_calltip",
-           "starting_offset")
+ENTRIES = ("code_assist", "code_assist_nolater", "get_definition_location", "find_definition", "get_doc",
+           "get_calltip", "starting_offset")
 
 
 def is_valid(text):
@@ -119,26 +119,161 @@ def rope_frame(tb):
     return "%s.%s" % (os.path.basename(fr.filename)[:-3], fr.name)
 
 
-def signature_of(entry, exc, tb, text, offset):
+def _parsed(text, offset, origin):
+    """an ast of the text, of the text with the cursor's line replaced by `pass`, or of the module the text was cut
+    from (the shapes below are properties of the module around the cursor line)"""
+    for t in (text, replaced_by_pass(text, offset) if offset is not None else None, origin):
+        if t is None:
+            continue
+        try:
+            return ast.parse(t)
+        except (SyntaxError, ValueError, RecursionError, MemoryError):
+            continue
+    return None
+
+
+def has_signature_syntax(tree):
+    """what C08-signature-syntax is about: a def with annotations, a return annotation, keyword-only or
+    positional-only parameters; a class with keywords"""
+    if tree is None:
+        return False
+    for n in ast.walk(tree):
+        if isinstance(n, (ast.FunctionDef, ast.AsyncFunctionDef, ast.Lambda)):
+            a = n.args
+            every = a.posonlyargs + a.args + a.kwonlyargs + [x for x in (a.vararg, a.kwarg) if x]
+            if a.posonlyargs or a.kwonlyargs or any(x.annotation is not None for x in every) \
+                    or getattr(n, "returns", None) is not None:
+                return True
+        if isinstance(n, ast.ClassDef) and n.keywords:
+            return True
+    return False
+
+
+def has_rebound_base(tree):
+    """a class one of whose base names is bound again inside that class (its own name, a nested class, an assignment
+    in its body): rope's superclass / parameter inference then walks a hierarchy that refers to itself"""
+    if tree is None:
+        return False
+    for c in ast.walk(tree):
+        if not isinstance(c, ast.ClassDef):
+            continue
+        bases = {b.id for b in c.bases if isinstance(b, ast.Name)}
+        if not bases:
+            continue
+        inside = {c.name}
+        for n in ast.walk(c):
+            if n is c:
+                continue
+            if isinstance(n, ast.ClassDef):
+                inside.add(n.name)
+            elif isinstance(n, ast.Name) and isinstance(n.ctx, ast.Store):
+                inside.add(n.id)
+        if bases & inside:
+            return True
+    return False
+
+
+def has_assigned_over_inherited_definition(tree):
+    """a class C with a base that names a class B of the module, where C assigns a name that B binds by a def, a
+    class or an import: the inheritance hint provider of rope.base.oi then reads `.assignments` of B's attribute,
+    which is not an AssignedName"""
+    if tree is None:
+        return False
+    classes = {}
+    for c in ast.walk(tree):
+        if isinstance(c, ast.ClassDef):
+            classes.setdefault(c.name, []).append(c)
+    for c in ast.walk(tree):
+        if not isinstance(c, ast.ClassDef):
+            continue
+        assigned = {n.id for n in ast.walk(c) if isinstance(n, ast.Name) and isinstance(n.ctx, ast.Store)}
+        for b in c.bases:
+            if not isinstance(b, ast.Name):
+                continue
+            for B in classes.get(b.id, []):
+                defined = set()
+                for st in ast.walk(B):
+                    if st is B:
+                        continue
+                    if isinstance(st, (ast.FunctionDef, ast.AsyncFunctionDef, ast.ClassDef)):
+                        defined.add(st.name)
+                    elif isinstance(st, (ast.Import, ast.ImportFrom)):
+                        defined.update((a.asname or a.name.split(".")[0]) for a in st.names)
+                if assigned & defined:
+                    return True
+    return False
+
+
+def signature_of(entry, exc, tb, text, offset, origin=None):
     """exc:<Exception>@<innermost rope frame>; BadIdentifierError also carries the entry group (it is an allowed
-    refusal of the pyname_at entries on non-identifiers)"""
+    refusal of the pyname_at entries on non-identifiers).  Failures inside components that /verif does not model
+    (type inference, the patched AST of property C08) carry the exception AND the structural shape of the module the
+    known defect needs; the same failure on a module without that shape has another signature."""
     if isinstance(exc, HangError):
         oi = any("/rope/base/oi/" in fr.filename.replace("\\", "/") for fr in traceback.extract_tb(tb))
         group = "code_assist" if entry.startswith("code_assist") else (
             "starting_offset" if entry == "starting_offset" else "pyname_at")
-        return "hang:type-inference" if oi else "hang:" + group
+        if oi:
+            return "hang:type-inference" + (":rebound-base" if has_rebound_base(_parsed(text, offset, origin)) else "")
+        return "hang:" + group
     frame = ALIAS.get(rope_frame(tb), rope_frame(tb))
     name = type(exc).__name__
     if frame == "oi.type-inference":
-        return "exc:type-inference"
+        tree = _parsed(text, offset, origin)
+        shape = ""
+        if name == "AttributeError" and has_assigned_over_inherited_definition(tree):
+            shape = ":assigned-over-inherited-definition"
+        elif has_rebound_base(tree):
+            shape = ":rebound-base"
+        return "exc:type-inference:%s%s" % (name, shape)
     if frame.startswith("patchedast."):
         # the source-annotated tree (property C08) could not be built for the repaired module
-        return "exc:patchedast-failure"
+        # (MismatchedTokenError or AttributeError, depending on where the walker loses the text)
+        return "exc:patchedast-failure%s" % (
+            ":signature-syntax" if has_signature_syntax(_parsed(text, offset, origin)) else "")
     if name == "BadIdentifierError":
         group = "code_assist" if entry.startswith("code_assist") else (
             "starting_offset" if entry == "starting_offset" else "pyname_at")
         return "exc:%s:%s@%s" % (group, name, frame)
-    return "exc:%s@%s" % (name, frame)
+    sig = "exc:%s@%s" % (name, frame)
+    shape = SHAPES.get(sig)
+    if shape is not None:
+        sig += ":" + shape[0] if shape[1](text, offset, _parsed(text, offset, origin)) else ""
+    return sig
+
+
+def _word_at(text, offset):
+    a = offset
+    while a > 0 and (text[a - 1].isalnum() or text[a - 1] == "_"):
+        a -= 1
+    b = offset
+    while b < len(text) and (text[b].isalnum() or text[b] == "_"):
+        b += 1
+    return text[a:b]
+
+
+def _shape_from_import_at_eof(text, offset, tree):
+    last = text[text.rfind("\n") + 1:]
+    return "\n" not in text[offset:] and re.match(r"\s*from\s+\S+\s+import\s", last) is not None
+
+
+def _shape_kwonly_without_default(text, offset, tree):
+    return tree is not None and any(
+        isinstance(n, (ast.FunctionDef, ast.AsyncFunctionDef)) and any(d is None for d in n.args.kw_defaults)
+        and (n.args.defaults or any(d is not None for d in n.args.kw_defaults))
+        for n in ast.walk(tree))
+
+
+def _shape_global_declared(text, offset, tree):
+    w = _word_at(text, offset)
+    return tree is not None and any(isinstance(n, ast.Global) and w in n.names for n in ast.walk(tree))
+
+
+# known defects with the exact shape of input they need: signature -> (shape name, test)
+SHAPES = {
+    "exc:AttributeError@functionutils._get_source_range": ("kwonly-without-default", _shape_kwonly_without_default),
+    "exc:AttributeError@findit.find_definition": ("declared-global", _shape_global_declared),
+}
 
 
 # frames that are the same defect met on two paths
@@ -179,6 +314,32 @@ def light_oracle(text, offset, proposals):
     return None
 
 
+def replaced_by_pass(text, offset):
+    """the text with the cursor's physical line replaced by `pass` at the same indentation"""
+    ls = text.rfind("\n", 0, offset) + 1
+    le = text.find("\n", offset)
+    le = len(text) if le < 0 else le
+    line = text[ls:le]
+    ind = 0 if line.strip() == "" else len(line) - len(line.lstrip(" "))
+    return text[:ls] + " " * ind + "pass" + text[le:]
+
+
+def odd_body_indent(text, offset):
+    """the cursor's line is the first statement of a block that is not indented by exactly 4 more than its
+    header (the repair inserts `pass` at header + 4)"""
+    lines = text.split("\n")
+    k = text.count("\n", 0, offset)
+    line = lines[k]
+    j = k - 1
+    while j >= 0 and lines[j].strip() == "":
+        j -= 1
+    if j < 0 or not lines[j].rstrip().endswith(":"):
+        return False
+    ind = len(line) - len(line.lstrip(" "))
+    pind = len(lines[j]) - len(lines[j].lstrip(" "))
+    return ind - pind != 4
+
+
 def texts_of(src):
     """(text, offset, is_truncation) for every offset of src and every truncation of a line at the cursor"""
     out = [(src, o, False) for o in range(len(src) + 1)]
@@ -198,6 +359,9 @@ def call(entry, project, text, offset, maxfixes):
         return codeassist.code_assist(project, text, offset, maxfixes=maxfixes, later_locals=False)
     if entry == "get_definition_location":
         return codeassist.get_definition_location(project, text, offset, maxfixes=maxfixes)
+    if entry == "find_definition":
+        from rope.contrib import findit
+        return findit.find_definition(project, text, offset, maxfixes=maxfixes)
     if entry == "get_doc":
         return codeassist.get_doc(project, text, offset, maxfixes=maxfixes)
     if entry == "get_calltip":
@@ -221,9 +385,18 @@ def judge(entry, exc, valid, on_identifier):
     return "internal error %s" % type(exc).__name__
 
 
-def sweep_text(project, text, offset, trunc, stats, found, entries=ENTRIES):
+def sweep_text(project, text, offset, trunc, stats, found, entries=ENTRIES, expect=None, origin=None):
+    """expect(text, offset, proposals) -> signature | None : completeness oracle of the caller for a truncated
+    line that stands for a whole simple statement"""
     valid = is_valid(text)
     ids = identifier_offsets(text) if valid else set()
+    # a single truncated line of an otherwise valid module: replacing the line by `pass` gives a valid module
+    ls_ = text.rfind("\n", 0, offset) + 1
+    simple = trunc and not valid and not text[ls_:offset].rstrip().endswith(":") \
+        and is_valid(replaced_by_pass(text, offset))
+    if simple:
+        stats["truncations:line-is-a-whole-simple-statement"] = stats.get(
+            "truncations:line-is-a-whole-simple-statement", 0) + 1
     fixes = (1,) if valid else MAXFIXES          # nothing is repaired in valid text: maxfixes is irrelevant
     for mf in fixes:
         for entry in entries:
@@ -235,6 +408,8 @@ def sweep_text(project, text, offset, trunc, stats, found, entries=ENTRIES):
                     got = call(entry, project, text, offset, mf)
                 if entry.startswith("code_assist"):
                     sig = light_oracle(text, offset, got)
+                    if sig is None and expect is not None and entry == "code_assist" and mf >= 1 and (simple or (valid and trunc)):
+                        sig = expect(text, offset, got)
                     if sig is not None:
                         stats["oracle-deviation"] = stats.get("oracle-deviation", 0) + 1
                         rec = found.get(sig)
@@ -247,10 +422,17 @@ def sweep_text(project, text, offset, trunc, stats, found, entries=ENTRIES):
                             rec["count"] += 1
             except Exception as e:  # noqa: BLE001 - the point is to see everything
                 why = judge(entry, e, valid, offset in ids)
+                repair_refused = False
+                if why is None and simple and mf >= 1 and type(e).__name__ == "ModuleSyntaxError" \
+                        and entry.startswith("code_assist"):
+                    why = "ModuleSyntaxError with maxfixes>=1 although the truncated line alone is at fault"
+                    repair_refused = True
                 if why is None:
                     stats["refused:" + type(e).__name__] = stats.get("refused:" + type(e).__name__, 0) + 1
                     continue
-                sig = signature_of(entry, e, e.__traceback__, text, offset)
+                sig = signature_of(entry, e, e.__traceback__, text, offset, origin)
+                if repair_refused:
+                    sig = "repair-refused" + (":odd-body-indent" if odd_body_indent(text, offset) else "")
                 stats["internal"] = stats.get("internal", 0) + 1
                 rec = found.get(sig)
                 if rec is None or len(text) < len(rec["text"]):
@@ -262,7 +444,7 @@ def sweep_text(project, text, offset, trunc, stats, found, entries=ENTRIES):
                     rec["count"] += 1
 
 
-def sweep_module(src, full=True):
+def sweep_module(src, full=True, expect=None):
     """Worker entry point: returns (stats, found) for one module.  `full`: truncations too."""
     from rope.base.project import Project
     d = tempfile.mkdtemp(prefix="ropeverif-c20s-")
@@ -274,7 +456,7 @@ def sweep_module(src, full=True):
             for (text, offset, trunc) in texts_of(src):
                 if trunc and not full:
                     continue
-                sweep_text(project, text, offset, trunc, stats, found)
+                sweep_text(project, text, offset, trunc, stats, found, expect=expect, origin=src)
         finally:
             project.close()
     finally:
@@ -299,6 +481,10 @@ def replay_one(rec):
                 valid = is_valid(text)
                 ids = identifier_offsets(text) if valid else set()
                 if judge(rec["entry"], e, valid, offset in ids) is None:
+                    if type(e).__name__ == "ModuleSyntaxError" and rec.get("maxfixes", 1) >= 1 and not valid \
+                            and rec["entry"].startswith("code_assist") and is_valid(replaced_by_pass(text, offset)) \
+                            and not text[text.rfind("\n", 0, offset) + 1:offset].rstrip().endswith(":"):
+                        return "repair-refused" + (":odd-body-indent" if odd_body_indent(text, offset) else "")
                     return None
                 return signature_of(rec["entry"], e, e.__traceback__, text, offset)
             return None
